@@ -6,7 +6,7 @@ func init() {
 	for _, p := range []string{"C03", "C04", "C05", "C09", "C10"} {
 		plans[p] = propPlan{Scenarios: []string{"tunnel"}, QuickRuns: 4000, ThoroughDur: 10 * time.Minute}
 	}
-	plans["C17"] = propPlan{Scenarios: []string{"tunnel", "router"}, QuickRuns: 4000, ThoroughDur: 10 * time.Minute}
+	plans["C17"] = propPlan{Scenarios: []string{"tunnel", "router", "tunnel", "router", "groups"}, QuickRuns: 4000, ThoroughDur: 10 * time.Minute}
 	plans["C16"] = propPlan{Scenarios: []string{"socket", "socket", "tunnel"}, QuickRuns: 4000, ThoroughDur: 10 * time.Minute}
 	plans["C01"] = propPlan{Scenarios: []string{"decoder"}, QuickRuns: 4000, ThoroughDur: 10 * time.Minute}
 	plans["C20"] = propPlan{Scenarios: []string{"describe"}, QuickRuns: 4000, ThoroughDur: 10 * time.Minute}
